@@ -25,7 +25,7 @@ ASSUMPTIONS = ['ndarray iteration order of a column view', 'base_to_prob table a
 MSA = 'merge_ska_array::MergeSkaArray'
 
 
-def pair_table(facts):
+def pair_table(facts, tier='quick'):
     """variant_dist interpreted on every pair of symbols a table can hold (x 2 running constants): (#cases, [differing cells]).  Shared with
     C15.use:variant_dist (the weights of an ambiguity code are uniform over its base set; N carries none)."""
     I = Interp(facts, {'IntT': 'u64'})
@@ -66,6 +66,28 @@ def pair_table(facts):
     want = (1.0, 2.0 / (2.0 + 2.0 + 2.0))
     if abs(r.fields[0] - want[0]) > 1e-12 or abs(r.fields[1] - want[1]) > 1e-12:
         bad.append(('AC-G-', 'AT--C', 2.0, (r.fields[0], r.fields[1]), want))
+    if tier == 'thorough':
+        # one long pair of columns (70 000 rows: more than any internal block / chunk size a "parallelised" rewrite is likely to use):
+        # the constant-site count c enters the denominator once, whatever the number of rows
+        L = 70000
+        I.max_steps = 4_000_000_000
+        I.steps = 0
+        c1 = ('ACGT-' * (L // 5 + 1))[:L]
+        c2 = ('AGGT-' * (L // 5 + 1))[:L]            # differs at every 2nd of five positions; both gaps at every 5th
+        r = I.call_fn(MSA + '::variant_dist', [view(c1), view(c2), 1000.0])
+        n += 1
+        diffs = sum(1 for x, y in zip(c1, c2) if x != '-' and y != '-' and x != y)
+        both = sum(1 for x, y in zip(c1, c2) if x != '-' and y != '-')
+        want = (float(diffs), 0.0 / (1000.0 + both))
+        if abs(r.fields[0] - want[0]) > 1e-6 or abs(r.fields[1] - want[1]) > 1e-12:
+            bad.append(('ACGT-.. x %d' % L, 'AGGT-..', 1000.0, (r.fields[0], r.fields[1]), want))
+        c3 = ('A-' * (L // 2 + 1))[:L]
+        c4 = ('AA' * (L // 2 + 1))[:L]                # exactly one gap at every 2nd row
+        r = I.call_fn(MSA + '::variant_dist', [view(c3), view(c4), 1000.0])
+        n += 1
+        want = (0.0, (L // 2) / (1000.0 + L // 2 + (L - L // 2)))
+        if abs(r.fields[0] - want[0]) > 1e-6 or abs(r.fields[1] - want[1]) > 1e-12:
+            bad.append(('A-.. x %d' % L, 'AA..', 1000.0, (r.fields[0], r.fields[1]), want))
     return n, bad
 
 
@@ -155,7 +177,7 @@ def run(facts, chk, tier, only=None):
                                  % (r['fa'], r['on_fail'], '' if r['k2'] else '; and no frequency filter with the user min_freq dominates the distance call'),
                           construct=dict(function='generic_modes::distance', producer=r['producer'], distance_call=r['dist']))
 
-    r = chk.guard('C14.pair', 'C14.pair:variant_dist', lambda: pair_table(facts))
+    r = chk.guard('C14.pair', 'C14.pair:variant_dist', lambda: pair_table(facts, tier))
     if r is not None:
         n, bad = r
         if bad:
